@@ -111,10 +111,23 @@ def run_carrier(carrier: str, steps: List[Dict[str, Any]], client_fn: Callable) 
         # how the peer's serialiser happens to spell JSON: compact or with a space after ':' and ','; members in insertion
         # order or sorted; non-ASCII raw or escaped
         ex = cur.get("exotic")
+        if ex in ("bigexp", "negexp"):
+            # (the infinite value is swapped for a sentinel string first, so that only that value - never a generated text
+            # that happens to read "Infinity" - is spelt 1e400)
+            def swap(v: Any) -> Any:
+                if isinstance(v, float) and v in (float("inf"), float("-inf")):
+                    return "$$VPBT-BIGEXP$$" if v > 0 else "$$VPBT-NEGEXP$$"
+                if isinstance(v, dict):
+                    return {k_: swap(x_) for k_, x_ in v.items()}
+                if isinstance(v, list):
+                    return [swap(x_) for x_ in v]
+                return v
+
+            m = swap(m)
         text = json.dumps(m, ensure_ascii=bool(cur["spell"].get("ascii")) or ex == "lone-surrogate", separators=(",", ":") if cur["spell"].get("compact") else None,
                           sort_keys=bool(cur["spell"].get("sorted")))
         if ex in ("bigexp", "negexp"):
-            text = text.replace("-Infinity", "-1e400").replace("Infinity", "1e400")
+            text = text.replace('"$$VPBT-BIGEXP$$"', "1e400").replace('"$$VPBT-NEGEXP$$"', "-1e400")
         return text
 
     def sse_block(m: Any, legacy: bool) -> str:
